@@ -16,6 +16,8 @@ type TypeInv struct {
 	Pkg    string
 	Props  []string
 	Fields []string
+	Stable []string // monitor: configuration fields that no function under contract changes
+	Lock   string // monitor: name of the mutex field that protects Fields ("" = plain type invariant)
 	Inv    []*Clause
 	Skip   map[string]string // method -> reason (listed in the evidence as unverified mutators)
 	Only   map[string]bool   // if non-empty: restrict to these methods
@@ -64,7 +66,11 @@ func substSpec(e SExpr, name string, repl SExpr) SExpr {
 
 // expandTypeInvs synthesises (or extends) function contracts for the mutators found in the source.
 func (e *Engine) expandTypeInvs() {
+	e.expandMonitors()
 	for _, ti := range e.db.TypeInvs {
+		if ti.Lock != "" {
+			continue // a monitor: handled by expandMonitors
+		}
 		p := e.pkgByPath[ti.Pkg]
 		if p == nil {
 			e.db.Errs = append(e.db.Errs, "typeinv "+ti.Type+": package not loaded")
